@@ -22,10 +22,14 @@ import (
 	"context"
 	"encoding/json"
 	"fmt"
+	"go/ast"
+	"go/parser"
+	"go/token"
 	"io/ioutil"
 	"os"
 	"reflect"
 	"sort"
+	"strings"
 	"sync"
 	"syscall"
 	"testing"
@@ -228,6 +232,127 @@ func (e *vc23Env) battery(t interface{ Fatalf(string, ...interface{}) }) []strin
 }
 
 // ---------------------------------------------------------------------------
+// request flags and functional options, enumerated by reflection
+
+// vc23Odo enumerates every combination of the draws whose label starts with
+// "flag:" (a mixed-radix counter that grows as draws are met); all other draws
+// vary with the iteration number.
+type vc23Odo struct {
+	digits, radix []int
+	labels        []string
+	pos, iter     int
+}
+
+func (o *vc23Odo) draw(label string, n int) int {
+	if !strings.HasPrefix(label, "flag:") {
+		h := 0
+		for _, ch := range label {
+			h = h*31 + int(ch)
+		}
+		if h < 0 {
+			h = -h
+		}
+		return (o.iter + h%7) % n
+	}
+	if o.pos == len(o.digits) {
+		o.digits = append(o.digits, 0)
+		o.radix = append(o.radix, n)
+		o.labels = append(o.labels, label)
+	}
+	v := o.digits[o.pos] % n
+	o.pos++
+	return v
+}
+
+// next advances to the next flag combination; false once all were produced.
+func (o *vc23Odo) next() bool {
+	o.pos = 0
+	o.iter++
+	for i := len(o.digits) - 1; i >= 0; i-- {
+		o.digits[i]++
+		if o.digits[i] < o.radix[i] {
+			return true
+		}
+		o.digits[i] = 0
+	}
+	return false
+}
+
+// vc23BoolFields lists the exported bool fields of a struct type.
+func vc23BoolFields(t reflect.Type) []string {
+	var out []string
+	for i := 0; i < t.NumField(); i++ {
+		if f := t.Field(i); f.PkgPath == "" && f.Type.Kind() == reflect.Bool {
+			out = append(out, f.Name)
+		}
+	}
+	return out
+}
+
+// vc23ImportOpts draws one on/off flag per exported bool field of
+// pilosa.ImportOptions (so an option added later is enumerated too) and
+// returns the matching functional options: the package's own constructor
+// where the harness knows it, else a function that sets the field.
+func vc23ImportOpts(draw vc23Draw) (opts []pilosa.ImportOption, set map[string]bool) {
+	set = map[string]bool{}
+	for _, name := range vc23BoolFields(reflect.TypeOf(pilosa.ImportOptions{})) {
+		if draw("flag:ImportOptions."+name, 2) == 0 {
+			continue
+		}
+		set[name] = true
+		switch name {
+		case "Clear":
+			opts = append(opts, pilosa.OptImportOptionsClear(true))
+		case "IgnoreKeyCheck":
+			opts = append(opts, pilosa.OptImportOptionsIgnoreKeyCheck(true))
+		default:
+			name := name
+			opts = append(opts, func(o *pilosa.ImportOptions) error {
+				reflect.ValueOf(o).Elem().FieldByName(name).SetBool(true)
+				return nil
+			})
+		}
+	}
+	return opts, set
+}
+
+// vc23OptConstructors scans the source of the package under test for exported
+// Opt... functions that return an ImportOption (evidence: a constructor the
+// harness does not know by name is reported, its field is still enumerated
+// through vc23ImportOpts).
+func vc23OptConstructors() (found, unknown []string) {
+	dir := os.Getenv("VERIF_REPO")
+	if dir == "" {
+		dir = "/repo"
+	}
+	fset := token.NewFileSet()
+	pkgs, err := parser.ParseDir(fset, dir, func(fi os.FileInfo) bool { return !strings.HasSuffix(fi.Name(), "_test.go") }, 0)
+	if err != nil {
+		return nil, nil
+	}
+	known := map[string]bool{"OptImportOptionsClear": true, "OptImportOptionsIgnoreKeyCheck": true}
+	for _, pkg := range pkgs {
+		for _, file := range pkg.Files {
+			for _, d := range file.Decls {
+				fd, ok := d.(*ast.FuncDecl)
+				if !ok || fd.Recv != nil || !strings.HasPrefix(fd.Name.Name, "Opt") || fd.Type.Results == nil || len(fd.Type.Results.List) != 1 {
+					continue
+				}
+				if id, ok := fd.Type.Results.List[0].Type.(*ast.Ident); ok && id.Name == "ImportOption" {
+					found = append(found, fd.Name.Name)
+					if !known[fd.Name.Name] {
+						unknown = append(unknown, fd.Name.Name)
+					}
+				}
+			}
+		}
+	}
+	sort.Strings(found)
+	sort.Strings(unknown)
+	return found, unknown
+}
+
+// ---------------------------------------------------------------------------
 // invocation of one method with generated arguments
 
 type vc23Draw func(label string, n int) int // value in [0,n)
@@ -260,8 +385,24 @@ func (e *vc23Env) invoke(name string, hot bool, draw vc23Draw) (c vc23Call) {
 		qs := []string{"Set(9, f=3)", "Clear(1, f=1)", "ClearRow(f=1)", "Store(Row(f=2), f=1)", "Set(5, v=7)", `SetRowAttrs(f, 1, name="x")`,
 			`SetColumnAttrs(1, tag="y")`, "Row(f=1)", "Count(Row(f=1))", "TopN(f, n=2)", "Rows(f)", "Sum(field=v)"}
 		q := qs[draw("query", len(qs))]
-		c.desc = fmt.Sprintf("Query(%s, %s)", idx, q)
-		_, c.err = api.Query(ctx, &pilosa.QueryRequest{Index: idx, Query: q})
+		req := &pilosa.QueryRequest{Index: idx, Query: q}
+		var flags []string
+		for _, name := range vc23BoolFields(reflect.TypeOf(pilosa.QueryRequest{})) {
+			if draw("flag:QueryRequest."+name, 2) == 1 {
+				reflect.ValueOf(req).Elem().FieldByName(name).SetBool(true)
+				flags = append(flags, name)
+			}
+		}
+		switch draw("flag:QueryRequest.Shards", 3) {
+		case 1:
+			req.Shards = []uint64{0}
+			flags = append(flags, "Shards=[0]")
+		case 2:
+			req.Shards = []uint64{0, 1}
+			flags = append(flags, "Shards=[0 1]")
+		}
+		c.desc = fmt.Sprintf("Query(%s, %s, %s)", idx, q, strings.Join(flags, ","))
+		_, c.err = api.Query(ctx, req)
 	case "CreateIndex":
 		n := fmt.Sprintf("c23tmp%d", e.n)
 		opt := pilosa.IndexOptions{Keys: draw("keys", 2) == 1, TrackExistence: draw("track", 2) == 1}
@@ -316,8 +457,9 @@ func (e *vc23Env) invoke(name string, hot bool, draw vc23Draw) (c vc23Call) {
 			}}
 			c.cleanup = func() { api.DeleteIndex(ctx, "c23tmpapplied"); api.DeleteField(ctx, vc23Idx, "applied") }
 		}
-		c.desc = fmt.Sprintf("ApplySchema(%d indexes, remote=true)", len(s.Indexes))
-		c.err = api.ApplySchema(ctx, s, true)
+		remote := draw("flag:ApplySchema.remote", 2) == 1
+		c.desc = fmt.Sprintf("ApplySchema(%d indexes, remote=%v)", len(s.Indexes), remote)
+		c.err = api.ApplySchema(ctx, s, remote)
 	case "DeleteAvailableShard":
 		sh := uint64(9)
 		if hot {
@@ -326,29 +468,38 @@ func (e *vc23Env) invoke(name string, hot bool, draw vc23Draw) (c vc23Call) {
 		c.desc = fmt.Sprintf("DeleteAvailableShard(%s, f, %d)", idx, sh)
 		c.err = api.DeleteAvailableShard(ctx, idx, fset, sh)
 	case "Import":
+		opts, set := vc23ImportOpts(draw)
 		req := &pilosa.ImportRequest{Index: idx, Field: fset, Shard: 0, RowIDs: []uint64{7, 1}, ColumnIDs: []uint64{3, 4}}
-		var opts []pilosa.ImportOption
-		if draw("clear", 2) == 1 {
+		if set["Clear"] {
 			req = &pilosa.ImportRequest{Index: idx, Field: fset, Shard: 0, RowIDs: []uint64{1}, ColumnIDs: []uint64{1}}
-			opts = append(opts, pilosa.OptImportOptionsClear(true))
 		}
-		c.desc = fmt.Sprintf("Import(%s/%s rows=%v cols=%v clear=%v)", idx, fset, req.RowIDs, req.ColumnIDs, len(opts) > 0)
+		c.desc = fmt.Sprintf("Import(%s/%s rows=%v cols=%v options=%v)", idx, fset, req.RowIDs, req.ColumnIDs, vc23setNames(set))
 		c.err = api.Import(ctx, req, opts...)
 	case "ImportValue":
+		opts, set := vc23ImportOpts(draw)
 		req := &pilosa.ImportValueRequest{Index: idx, Field: fint, Shard: 0, ColumnIDs: []uint64{1, 6}, Values: []int64{int64(draw("val", 50)), -2}}
-		c.desc = fmt.Sprintf("ImportValue(%s/%s cols=%v vals=%v)", idx, fint, req.ColumnIDs, req.Values)
-		c.err = api.ImportValue(ctx, req)
+		c.desc = fmt.Sprintf("ImportValue(%s/%s cols=%v vals=%v options=%v)", idx, fint, req.ColumnIDs, req.Values, vc23setNames(set))
+		c.err = api.ImportValue(ctx, req, opts...)
 	case "ImportRoaring":
 		bm := roaring.NewBitmap(7*pilosa.ShardWidth+3, 1*pilosa.ShardWidth+9)
 		var buf bytes.Buffer
 		bm.WriteTo(&buf)
-		clear := draw("clear", 2) == 1
-		if clear {
+		rreq := &pilosa.ImportRoaringRequest{}
+		var flags []string
+		for _, name := range vc23BoolFields(reflect.TypeOf(pilosa.ImportRoaringRequest{})) {
+			if draw("flag:ImportRoaringRequest."+name, 2) == 1 {
+				reflect.ValueOf(rreq).Elem().FieldByName(name).SetBool(true)
+				flags = append(flags, name)
+			}
+		}
+		if rreq.Clear {
 			buf.Reset()
 			roaring.NewBitmap(1*pilosa.ShardWidth + 1).WriteTo(&buf)
 		}
-		c.desc = fmt.Sprintf("ImportRoaring(%s/%s shard 0 clear=%v)", idx, fset, clear)
-		c.err = api.ImportRoaring(ctx, idx, fset, 0, draw("remote", 2) == 1, &pilosa.ImportRoaringRequest{Clear: clear, Views: map[string][]byte{"": buf.Bytes()}})
+		rreq.Views = map[string][]byte{"": buf.Bytes()}
+		remote := draw("flag:ImportRoaring.remote", 2) == 1
+		c.desc = fmt.Sprintf("ImportRoaring(%s/%s shard 0 remote=%v %s)", idx, fset, remote, strings.Join(flags, ","))
+		c.err = api.ImportRoaring(ctx, idx, fset, 0, remote, rreq)
 	case "ExportCSV":
 		sh := uint64(draw("shard", 2))
 		c.desc = fmt.Sprintf("ExportCSV(%s, f, %d)", vc23Idx, sh)
@@ -463,6 +614,15 @@ func (e *vc23Env) invoke(name string, hot bool, draw vc23Draw) (c vc23Call) {
 		c.desc = name + "()"
 	}
 	return c
+}
+
+func vc23setNames(m map[string]bool) []string {
+	var out []string
+	for k := range m {
+		out = append(out, k)
+	}
+	sort.Strings(out)
+	return out
 }
 
 func vc23Methods(api *pilosa.API) []string {
@@ -587,19 +747,30 @@ func TestVerifC23_Pairs(t *testing.T) {
 	vkit.Extra("api_methods", methods)
 	vkit.Extra("unclassified", unclassified)
 	variants := vkit.Scale(3, 12)
-	pairs := 0
+	pairs, calls := 0, 0
+	flagSpace := map[string]string{}
+	found, unknownOpts := vc23OptConstructors()
+	vkit.Extra("import_option_constructors", found)
+	vkit.Extra("import_option_constructors_unknown_to_harness", unknownOpts)
 	for _, st := range vc23States {
 		for _, m := range methods {
-			for v := 0; v < variants; v++ {
-				v := v
-				k := 0
-				draw := func(label string, n int) int { k++; return (v + k*v/2) % n }
-				e.checkPair(t, st, m, draw)
+			// every combination of the request flags / functional options of the method,
+			// and at least `variants` calls
+			odo := &vc23Odo{}
+			for more := true; more || odo.iter < variants; {
+				e.checkPair(t, st, m, odo.draw)
+				more = odo.next() && more
+				calls++
+			}
+			if len(odo.labels) > 0 {
+				flagSpace[m] = fmt.Sprintf("%v x %v", odo.labels, odo.radix)
 			}
 			pairs++
 		}
 	}
 	vkit.Extra("pairs", pairs)
+	vkit.Extra("calls", calls)
+	vkit.Extra("flag_space_enumerated", flagSpace)
 	vkit.Extra("exhaustive", true)
 }
 
